@@ -1,3 +1,286 @@
-/- stub: model `WaitSet` (to be written) -/
+/-
+Executable model of `iceoryx2::waitset::WaitSet` (iceoryx2/src/waitset.rs) together with the parts of
+its collaborators that decide what a processing call reports:
+
+* reactor (iceoryx2-cal/src/reactor/{epoll,posix_select}.rs, bb/linux/epoll.rs, bb/posix/file_descriptor_set.rs):
+  the set of attached file descriptors; a wait with zero timeout returns the attached descriptors
+  that are readable.  Trusted, not modelled: the kernel (epoll_ctl / epoll_wait / select are
+  level-triggered and exact).
+* deadline queue (bb/posix/src/deadline_queue.rs): attachments (index, period, start), `id_count`,
+  `previous_iteration`, `reset`, `handle_missed_deadlines`.  Time is a logical counter (`advance`).
+* listener (event concept unix-datagram + counting bit set): per listener the notifications since the
+  last `try_wait`; sequentially the listener's descriptor is readable iff that list is non-empty.
+
+Descriptors are identified with listener indices (one descriptor per listener, all alive for the whole
+history), guards with the caller's labels.  Core Lean only.
+-/
 namespace Iox2.WaitSet
+
+/-- `WaitSetAttachmentError` (the two other variants, InternalError / InsufficientResources, need
+failing system calls) -/
+inductive AttachErr where
+  | InsufficientCapacity
+  | AlreadyAttached
+  deriving DecidableEq, Repr
+
+/-- `ReactorAttachError` as far as reachable -/
+inductive ReactorErr where
+  | AlreadyAttached
+  | CapacityExceeded
+  deriving DecidableEq, Repr
+
+/-- waitset.rs `attach_to_reactor`: both reactor refusals become `AlreadyAttached` (line 1000-1008) -/
+def mapReactorErr : ReactorErr → AttachErr
+  | .AlreadyAttached => .AlreadyAttached
+  | .CapacityExceeded => .AlreadyAttached
+
+/-- `GuardType`: what a `WaitSetGuard` holds -/
+inductive Guard where
+  | tick (idx : Nat)
+  | deadline (fd idx : Nat)
+  | notif (fd : Nat)
+  deriving DecidableEq, Repr
+
+/-- `AttachmentIdType` (the wait-set address is the same for all ids of one history) -/
+inductive AttId where
+  | tick (idx : Nat)
+  | deadline (fd idx : Nat)
+  | notif (fd : Nat)
+  deriving DecidableEq, Repr
+
+/-- how the caller classifies a callback with respect to one of its guards -/
+inductive Kind where
+  | n   -- has_event_from (notification / deadline guard)
+  | d   -- has_missed_deadline
+  | t   -- has_event_from (interval guard)
+  deriving DecidableEq, Repr
+
+structure DqAtt where
+  idx : Nat
+  period : Nat
+  start : Nat
+  deriving DecidableEq, Repr
+
+structure State where
+  cap : Nat                      -- Reactor::capacity() = WaitSet::capacity()
+  capFirst : Bool                -- reactor refuses with CapacityExceeded before the membership test (select); epoll: never
+  nl : Nat                       -- listeners 0..nl-1
+  ns : Nat                       -- services; listener l belongs to service l % ns
+  evMax : Nat                    -- event_id_max_value
+  pending : List (Nat × Nat)     -- (listener, event id) notified and not yet drained
+  reactor : List Nat             -- attached descriptors, attach order
+  dq : List DqAtt                -- DeadlineQueue::attachments
+  idCount : Nat                  -- DeadlineQueue::id_count
+  prev : Nat                     -- DeadlineQueue::previous_iteration
+  a2d : List (Nat × Nat)         -- attachment_to_deadline : fd ↦ deadline index
+  d2a : List (Nat × Nat)         -- deadline_to_attachment : deadline index ↦ fd
+  count : Nat                    -- attachment_counter
+  guards : List (Nat × Guard)    -- guards the caller holds, by label
+  now : Nat                      -- logical clock
+  deriving Repr
+
+def State.init (cap : Nat) (capFirst : Bool) (nl ns evMax : Nat) : State :=
+  { cap, capFirst, nl, ns, evMax, pending := [], reactor := [], dq := [], idCount := 0, prev := 0,
+    a2d := [], d2a := [], count := 0, guards := [], now := 0 }
+
+inductive Op where
+  | attachN (g l : Nat)
+  | attachD (g l p : Nat)
+  | attachI (g p : Nat)
+  | dropGuard (g : Nat)
+  | notify (l id : Nat)
+  | notifyAll (sv id : Nat)
+  | drain (l : Nat)
+  | runOnce
+  | advance (k : Nat)
+  | len
+  | capacity
+  | isEmpty
+  deriving DecidableEq, Repr
+
+inductive Out where
+  | ok
+  | dup                                   -- harness: the guard label is in use
+  | none                                  -- harness: no such listener / service / guard
+  | attachErr (e : AttachErr)
+  | noAttachments                         -- WaitSetRunError::NoAttachments
+  | reports (r : List (Nat × Kind))       -- AllEventsHandled; (guard label, kind) per callback × matching guard, callback order
+  | foreign (ids : List AttId) (r : List (Nat × Kind))  -- some callback matched no guard
+  | notified (k : Nat)
+  | eventIdOutOfBounds
+  | drained (ids : List (Nat × Nat))      -- (event id, count), ascending ids
+  | nat (k : Nat)
+  | bool (b : Bool)
+  deriving DecidableEq, Repr
+
+/-! ### BTreeMap<Nat, Nat> as association list -/
+
+def mapInsert (k v : Nat) (m : List (Nat × Nat)) : List (Nat × Nat) := (k, v) :: m.filter (fun e => e.1 != k)
+def mapErase (k : Nat) (m : List (Nat × Nat)) : List (Nat × Nat) := m.filter (fun e => e.1 != k)
+def mapGet (k : Nat) (m : List (Nat × Nat)) : Option Nat := (m.find? (fun e => e.1 == k)).map (·.2)
+
+def guardOf (g : Nat) (gs : List (Nat × Guard)) : Option Guard := (gs.find? (fun e => e.1 == g)).map (·.2)
+
+/-! ### listener -/
+
+/-- the listener's descriptor is readable -/
+def ready (s : State) (l : Nat) : Bool := s.pending.any (fun e => e.1 == l)
+
+def countOf (s : State) (l id : Nat) : Nat := (s.pending.filter (fun e => e.1 == l && e.2 == id)).length
+
+/-- `Listener::try_wait`: every pending id with its count -/
+def drainOut (s : State) (l : Nat) : List (Nat × Nat) :=
+  ((List.range (s.evMax + 1)).filter (fun id => countOf s l id != 0)).map (fun id => (id, countOf s l id))
+
+/-! ### deadline queue -/
+
+/-- `handle_missed_deadlines`, the per attachment test -/
+def missed (last now : Nat) (a : DqAtt) : Bool :=
+  if a.period = 0 then true
+  else (max last a.start - a.start) / a.period < (now - a.start) / a.period
+
+def dqRemove (idx : Nat) (dq : List DqAtt) : List DqAtt := dq.filter (fun a => a.idx != idx)
+
+/-- `DeadlineQueue::reset` -/
+def dqReset (idx now : Nat) (dq : List DqAtt) : List DqAtt :=
+  dq.map (fun a => if a.idx = idx then { a with start := now } else a)
+
+/-- `reset_deadline` for one triggered descriptor -/
+def resetFor (a2d : List (Nat × Nat)) (now : Nat) (dq : List DqAtt) (fd : Nat) : List DqAtt :=
+  match mapGet fd a2d with
+  | some idx => dqReset idx now dq
+  | none => dq
+
+/-! ### reactor -/
+
+def reactorAttach (s : State) (fd : Nat) : Except ReactorErr (List Nat) :=
+  if s.capFirst && s.reactor.length ≥ s.cap then .error .CapacityExceeded
+  else if fd ∈ s.reactor then .error .AlreadyAttached
+  else .ok (s.reactor ++ [fd])
+
+def reactorRemove (fd : Nat) (r : List Nat) : List Nat := r.filter (· != fd)
+
+/-! ### the caller's classification of a callback (`has_missed_deadline`, `has_event_from`) -/
+
+def matchGuard (id : AttId) (g : Guard) : Option Kind :=
+  match id, g with
+  | .deadline fd idx, .deadline fd' idx' => if fd = fd' ∧ idx = idx' then some .d else none
+  | .notif fd, .deadline fd' _ => if fd = fd' then some .n else none
+  | .notif fd, .notif fd' => if fd = fd' then some .n else none
+  | .tick idx, .tick idx' => if idx = idx' then some .t else none
+  | _, _ => none
+
+def matchAll (gs : List (Nat × Guard)) (id : AttId) : List (Nat × Kind) :=
+  gs.filterMap (fun e => (matchGuard id e.2).map (fun k => (e.1, k)))
+
+/-! ### wait_and_process_once_with_timeout(callback, 0) -/
+
+/-- descriptors the reactor reports -/
+def triggered (s : State) : List Nat := s.reactor.filter (ready s)
+
+/-- deadline queue after `reset_deadline` of every triggered descriptor -/
+def dqAfterReset (s : State) : List DqAtt := (triggered s).foldl (resetFor s.a2d s.now) s.dq
+
+/-- `previous_iteration` as seen by `missed_deadlines` (`duration_until_next_deadline` stores `now`
+when nothing is missed) -/
+def prevAfterPeek (s : State) : Nat :=
+  if s.dq.isEmpty then s.prev else if s.dq.any (missed s.prev s.now) then s.prev else s.now
+
+/-- the ids the callback is invoked with, in order: missed deadlines / ticks, then notifications -/
+def callbackIds (s : State) : List AttId :=
+  ((dqAfterReset s).filter (missed (prevAfterPeek s) s.now)).map
+      (fun a => match mapGet a.idx s.d2a with
+                | some fd => AttId.deadline fd a.idx
+                | none => AttId.tick a.idx)
+    ++ (triggered s).map AttId.notif
+
+def runOnce (s : State) : State × Out :=
+  if s.count = 0 then (s, .noAttachments)
+  else
+    let ids := callbackIds s
+    let s' := { s with dq := dqAfterReset s, prev := s.now }
+    let unmatched := ids.filter (fun id => (matchAll s.guards id).isEmpty)
+    let r := ids.flatMap (matchAll s.guards)
+    (s', if unmatched.isEmpty then .reports r else .foreign unmatched r)
+
+/-! ### attach / detach -/
+
+def attachN (s : State) (g l : Nat) : State × Out :=
+  if l ≥ s.nl then (s, .none)
+  else if (guardOf g s.guards).isSome then (s, .dup)
+  else match reactorAttach s l with
+    | .error e => (s, .attachErr (mapReactorErr e))
+    | .ok r =>
+      -- WaitSet::attach(): len == capacity; the reactor guard is dropped again
+      if s.count = s.cap then (s, .attachErr .InsufficientCapacity)
+      else ({ s with reactor := r, count := s.count + 1, guards := s.guards ++ [(g, .notif l)] }, .ok)
+
+def attachD (s : State) (g l p : Nat) : State × Out :=
+  if l ≥ s.nl then (s, .none)
+  else if (guardOf g s.guards).isSome then (s, .dup)
+  else match reactorAttach s l with
+    | .error e => (s, .attachErr (mapReactorErr e))
+    | .ok r =>
+      let idx := s.idCount
+      let a2d := mapInsert l idx s.a2d
+      let d2a := mapInsert idx l s.d2a
+      if s.count = s.cap then
+        -- both guards are dropped; the two map entries stay (attach_deadline inserts before attach())
+        ({ s with idCount := idx + 1, a2d, d2a }, .attachErr .InsufficientCapacity)
+      else
+        ({ s with reactor := r, dq := s.dq ++ [{ idx, period := p, start := s.now }], idCount := idx + 1, a2d, d2a,
+                  count := s.count + 1, guards := s.guards ++ [(g, .deadline l idx)] }, .ok)
+
+def attachI (s : State) (g p : Nat) : State × Out :=
+  if (guardOf g s.guards).isSome then (s, .dup)
+  else
+    let idx := s.idCount
+    if s.count = s.cap then ({ s with idCount := idx + 1 }, .attachErr .InsufficientCapacity)
+    else ({ s with dq := s.dq ++ [{ idx, period := p, start := s.now }], idCount := idx + 1,
+                   count := s.count + 1, guards := s.guards ++ [(g, .tick idx)] }, .ok)
+
+/-- `Drop for WaitSetGuard` followed by the drops of the reactor / deadline-queue guards -/
+def dropGuard (s : State) (g : Nat) : State × Out :=
+  match guardOf g s.guards with
+  | none => (s, .none)
+  | some gd =>
+    let gs := s.guards.filter (fun e => e.1 != g)
+    match gd with
+    | .tick idx => ({ s with dq := dqRemove idx s.dq, count := s.count - 1, guards := gs }, .ok)
+    | .notif fd => ({ s with reactor := reactorRemove fd s.reactor, count := s.count - 1, guards := gs }, .ok)
+    | .deadline fd idx =>
+      ({ s with a2d := mapErase fd s.a2d, d2a := mapErase idx s.d2a, reactor := reactorRemove fd s.reactor,
+                dq := dqRemove idx s.dq, count := s.count - 1, guards := gs }, .ok)
+
+/-! ### notifier -/
+
+def listenersOf (s : State) (sv : Nat) : List Nat := (List.range s.nl).filter (fun l => l % s.ns == sv)
+
+def step (s : State) : Op → State × Out
+  | .attachN g l => attachN s g l
+  | .attachD g l p => attachD s g l p
+  | .attachI g p => attachI s g p
+  | .dropGuard g => dropGuard s g
+  | .notify l id =>
+    if l ≥ s.nl then (s, .none)
+    else if id > s.evMax then (s, .eventIdOutOfBounds)
+    else ({ s with pending := s.pending ++ [(l, id)] }, .ok)
+  | .notifyAll sv id =>
+    if sv ≥ s.ns then (s, .none)
+    else if id > s.evMax then (s, .eventIdOutOfBounds)
+    else ({ s with pending := s.pending ++ (listenersOf s sv).map (fun l => (l, id)) }, .notified (listenersOf s sv).length)
+  | .drain l =>
+    if l ≥ s.nl then (s, .none)
+    else ({ s with pending := s.pending.filter (fun e => e.1 != l) }, .drained (drainOut s l))
+  | .runOnce => runOnce s
+  | .advance k => ({ s with now := s.now + k }, .ok)
+  | .len => (s, .nat s.count)
+  | .capacity => (s, .nat s.cap)
+  | .isEmpty => (s, .bool (s.count == 0))
+
+/-- state after a history -/
+def run (s : State) : List Op → State
+  | [] => s
+  | op :: ops => run (step s op).1 ops
+
 end Iox2.WaitSet
